@@ -741,6 +741,10 @@ def mixed_cases(draw, tier):
     return {"spec": spec, "key_map": draw(st.booleans()), "value_map": draw(st.booleans())}
 
 
+# (what round 8 added to the case domain; part of the evidence text)
+RULE_ROUND8 = ' value_map lists padded to 10 / 100 / 1000 entries (indexes of 2-4 digits); string data also as instances of a str subclass with own __str__ / __format__. Part c-locale: reader, writer and mixed-docs once more in a child interpreter with LC_ALL=C, UTF-8 mode and locale coercion off (plain files opened without an explicit encoding are ASCII there).'
+RULE = RULE + RULE_ROUND8
+
 PARTS = [
     Part("mutated-documents", run_mutated, strategy=lambda tier: mutated_cases(tier), n={"quick": 500, "thorough": 120000}),
     Part("writer", run_writer, strategy=lambda tier: writer_cases(tier), n={"quick": 500, "thorough": 120000}),
